@@ -672,7 +672,8 @@ _STD_VARIANTS = {"None": 0, "Some": 1, "Ok": 0, "Err": 1, "Continue": 0, "Break"
                  "Included": 0, "Excluded": 1, "Unbounded": 2}
 
 
-def decision_paths(fn, limit=400, with_calls=False, with_env=False, start=0, stops=(), free_locals=False):
+def decision_paths(fn, limit=400, with_calls=False, with_env=False, start=0, stops=(), free_locals=False, with_trace=False,
+                   init_env=None, closure_bodies=None, bb_off=0):
     """Enumerate the acyclic entry→return paths of a loop-free body, evaluating assignments
     flow-sensitively into expression trees (parameters stay symbolic, calls stay opaque).
     Returns [(conditions, result)] with conditions = [(discr_expr, chosen_value or None for `otherwise`,
@@ -682,7 +683,7 @@ def decision_paths(fn, limit=400, with_calls=False, with_env=False, start=0, sto
     def ev_place(p, env):
         l = p["l"]
         projs = p["p"]
-        if projs and projs[0] == "deref" and ("mem", l) in env:
+        if projs and projs[0] == "deref" and ("mem", l) in env and not with_trace:
             e = env[("mem", l)]          # the pointee was (partly) overwritten on this path
             projs = projs[1:]
         elif l in env:
@@ -705,8 +706,12 @@ def decision_paths(fn, limit=400, with_calls=False, with_env=False, start=0, sto
                 e = ("free", l, fn.names.get(l))
         else:
             raise Inconclusive("%s: read of a local without a definition on this path (_%d)" % (fn.path, l))
+        through_ptr = False
         for el in projs:
             if el == "deref":
+                if with_trace and e[0] == "closure":
+                    continue              # `(*self).capture` of a closure value bound by the combinator model
+                through_ptr = True
                 e = e[1] if e[0] == "ref" else ("deref", e)
             elif isinstance(el, dict) and "f" in el:
                 nm = el["name"]
@@ -737,6 +742,27 @@ def decision_paths(fn, limit=400, with_calls=False, with_env=False, start=0, sto
                 e = ("cindex", e, el["cindex"], bool(el.get("from_end")), el.get("min_length"))
             elif isinstance(el, dict) and "subslice" in el:
                 e = ("subslice", e, el["subslice"][0], el["subslice"][1], bool(el.get("from_end")))
+            else:
+                e = ("proj", e, str(el))
+        if with_trace and through_ptr and e[0] in ("field", "deref"):
+            # trace mode: a read through a pointer is stamped with the number of events before it (memory may change later)
+            e = ("rd", e, len(env.get("#trace", ())))
+        return e
+
+    def place_name(p, env):
+        """The place an assignment writes, as an expression (never its current contents)."""
+        l = p["l"]
+        if 1 <= l <= fn.arg_count and l not in env:
+            e = ("arg", l, fn.names.get(l))
+        elif l in env and isinstance(env[l], tuple) and env[l] and env[l][0] in ("ref", "call", "arg", "rd", "cast"):
+            e = env[l]
+        else:
+            e = ("local", l, fn.names.get(l))
+        for el in p["p"]:
+            if el == "deref":
+                e = e[1] if e[0] == "ref" else ("deref", e)
+            elif isinstance(el, dict) and "f" in el:
+                e = ("field", e, el["name"], el.get("of"))
             else:
                 e = ("proj", e, str(el))
         return e
@@ -817,6 +843,8 @@ def decision_paths(fn, limit=400, with_calls=False, with_env=False, start=0, sto
                     mr[lhs["l"]] = mr[(rv_["use"].get("move") or rv_["use"].get("copy"))["l"]]
                     env["#mutref"] = mr
             else:
+                if with_trace:
+                    env["#trace"] = tuple(env.get("#trace", ())) + (("store", place_name(lhs, env), v, bb),)
                 # field update of an aggregate local: record as an updated aggregate when possible
                 base = env.get(lhs["l"])
                 el = lhs["p"][-1]
@@ -853,6 +881,8 @@ def decision_paths(fn, limit=400, with_calls=False, with_env=False, start=0, sto
         if k == "return":
             if stops:
                 out.append((conds, ("return", env.get(0)), dict(env)))
+            elif with_trace:
+                out.append((conds, env.get(0), list(env.get("#trace", ()))))
             elif with_env:
                 out.append((conds, env.get(0), dict(env)))
             elif with_calls:
@@ -895,16 +925,33 @@ def decision_paths(fn, limit=400, with_calls=False, with_env=False, start=0, sto
                         return
             done = set()
             for v, b_ in t["arms"]:
-                go(b_, env, conds + [(d, v, allv)], seen)
+                e2 = env
+                if with_trace:
+                    e2 = dict(env)
+                    e2["#trace"] = tuple(env.get("#trace", ())) + (("cond", d, v, tuple(allv), bb),)
+                go(b_, e2, conds + [(d, v, allv)], seen)
                 done.add(b_)
             if fn.blocks[t["otherwise"]]["term"]["k"] != "unreachable":
-                go(t["otherwise"], env, conds + [(d, None, allv)], seen)
+                e2 = env
+                if with_trace:
+                    e2 = dict(env)
+                    e2["#trace"] = tuple(env.get("#trace", ())) + (("cond", d, None, tuple(allv), bb),)
+                go(t["otherwise"], e2, conds + [(d, None, allv)], seen)
         elif k == "call":
             args = tuple(ev_op(a, env) for a in t["args"])
             name = t.get("resolved") or t.get("fn") or "?"
             d = t["dest"]
+            if with_trace and closure_bodies is not None and not d["p"] and t["target"] is not None:
+                forks = _combinator_forks(fn, t, name, args, env, closure_bodies, bb + bb_off, limit)
+                if forks is not None:
+                    for extra_conds, val, tr in forks:
+                        e2 = dict(env)
+                        e2["#trace"] = tr
+                        e2[d["l"]] = val
+                        go(t["target"], e2, conds + extra_conds, seen)
+                    return
             if not d["p"]:
-                val = ("call", name, args, t.get("fn"), (bb, d["l"]))
+                val = ("call", name, args, t.get("fn"), (bb + bb_off, d["l"]))
                 # `x?` on a value whose variant is known on this path
                 if str(t.get("fn")).endswith("Try::branch") and args and args[0][0] == "agg" and isinstance(args[0][1], str):
                     var = args[0][1].rsplit("::", 1)[-1]
@@ -914,6 +961,8 @@ def decision_paths(fn, limit=400, with_calls=False, with_env=False, start=0, sto
                         val = ("agg", "std::ops::ControlFlow::Break", {"0": args[0]})
                 env[d["l"]] = val
             env["#calls"] = tuple(env.get("#calls", ())) + ((name, (bb, d["l"]), args),)
+            if with_trace:
+                env["#trace"] = tuple(env.get("#trace", ())) + (("call", name, args, bb + bb_off, d["l"]),)
             # a local handed to the callee as `&mut local` may have been changed by it
             for a_ in t["args"]:
                 p_ = a_.get("move") or a_.get("copy")
@@ -924,8 +973,88 @@ def decision_paths(fn, limit=400, with_calls=False, with_env=False, start=0, sto
             if t["target"] is not None:
                 go(t["target"], env, conds, seen)
         elif k in ("assert", "drop"):
+            if with_trace and k == "drop" and t.get("place") is not None:
+                try:
+                    env["#trace"] = tuple(env.get("#trace", ())) + (("drop", ev_place(t["place"], env), t.get("ty") or "", bb),)
+                except Inconclusive:
+                    pass
             go(t["target"], env, conds, seen)
         # unreachable / resume: path ends without a result
 
-    go(start, {}, [], frozenset())
+    go(start, dict(init_env or {}), [], frozenset())
+    return out
+
+
+_COMBINATORS = {
+    # last path segment -> (receiver kind, {receiver variant: action})
+    "ok_or_else": ("Option", {"Some": ("wrap", "std::result::Result::Ok", "payload"), "None": ("wrap", "std::result::Result::Err", "call0")}),
+    "unwrap_or_else": ("Option", {"Some": ("payload",), "None": ("call0",)}),
+    "map": ("Option", {"Some": ("wrap", "std::option::Option::Some", "call1"), "None": ("none",)}),
+    "and_then": ("Option", {"Some": ("call1",), "None": ("none",)}),
+    "or_else": ("Option", {"Some": ("recv",), "None": ("call0",)}),
+    "then": ("bool", {1: ("wrap", "std::option::Option::Some", "call0"), 0: ("none",)}),
+}
+
+
+def _combinator_forks(fn, t, name, args, env, closure_bodies, call_id, limit):
+    """Option / bool combinators that take a closure built on this path (`opt.ok_or_else(|| ..)`, `cond.then(|| ..)`):
+    the call is replaced by its definition -- a test of the receiver, and the closure body (enumerated like the
+    body itself) on the branch that runs it.  None if the call is not such a combinator."""
+    seg = str(name).rsplit("::", 1)[-1]
+    spec = _COMBINATORS.get(seg)
+    if spec is None or len(args) != 2:
+        return None
+    kind, acts = spec
+    nm = str(name)
+    if kind == "Option" and "Option" not in nm:
+        return None
+    if kind == "bool" and "bool" not in nm:
+        return None
+    clo = args[1]
+    while isinstance(clo, tuple) and clo and clo[0] == "ref":
+        clo = clo[1]
+    if not (isinstance(clo, tuple) and clo and clo[0] == "closure"):
+        return None
+    body = closure_bodies(clo[1])
+    if body is None:
+        return None
+    recv = args[0]
+    base_trace = tuple(env.get("#trace", ()))
+    out = []
+    if kind == "Option":
+        known = None
+        if recv[0] == "agg" and isinstance(recv[1], str) and recv[1].rsplit("::", 1)[-1] in ("Some", "None"):
+            known = recv[1].rsplit("::", 1)[-1]
+        cases = [(known, [], base_trace)] if known else [
+            ("None", [(("discr", recv, None), 0, [0, 1])], base_trace + (("cond", ("discr", recv, None), 0, (0, 1), call_id),)),
+            ("Some", [(("discr", recv, None), 1, [0, 1])], base_trace + (("cond", ("discr", recv, None), 1, (0, 1), call_id),))]
+        payload = recv[2].get("0") if (known == "Some" and recv[0] == "agg") else ("field", ("downcast", recv, "Some"), "0", None)
+    else:
+        if recv[0] == "const" and recv[1] in (0, 1, True, False):
+            cases = [(int(recv[1]), [], base_trace)]
+        else:
+            cases = [(0, [(recv, 0, [0])], base_trace + (("cond", recv, 0, (0,), call_id),)),
+                     (1, [(recv, None, [0])], base_trace + (("cond", recv, None, (0,), call_id),))]
+        payload = None
+    for var, cconds, tr in cases:
+        act = acts[var]
+        inner = act[2] if act[0] == "wrap" else act[0]
+        results = []
+        if inner in ("call0", "call1"):
+            ienv = {1: clo, "#trace": tr}
+            if inner == "call1":
+                ienv[2] = payload
+            sub = decision_paths(Fn(body), limit=limit, with_trace=True, init_env=ienv, closure_bodies=closure_bodies, bb_off=call_id * 1000 + 100000)
+            for sconds, sres, strace in sub:
+                results.append((cconds + sconds, sres, tuple(strace)))
+        elif inner == "payload":
+            results.append((cconds, payload, tr))
+        elif inner == "recv":
+            results.append((cconds, recv, tr))
+        elif inner == "none":
+            results.append((cconds, ("agg", "std::option::Option::None", {}), tr))
+        for rc, rv, rt in results:
+            if act[0] == "wrap":
+                rv = ("agg", act[1], {"0": rv})
+            out.append((rc, rv, rt))
     return out
